@@ -273,7 +273,7 @@ func checkC13(c *Ctx) {
 	// is contained by the handler's recover boundary and leaves the executed batch pending (C19's payout clauses)
 	c.include("exact-delete", "C19", rulesIn("C19.prorata", "C19.clamp", "C19.remainder", "C19.units"))
 	// "observed" means voted by more than two thirds of the power: the threshold's form (C02.quorum-guard)
-	c.include("timeout-guard", "C02", rulesIn("C02.quorum-guard"))
+	c.include("timeout-guard", "C02", rulesIn("C02.quorum-guard", "C02.one-vote"))
 }
 
 func (c *Ctx) checkBatchExecutedAs(rule string, reach map[*ssa.Function]bool) {
